@@ -24,6 +24,7 @@ fn main() {
     let mut out: Option<String> = None;
     let mut threads = std::thread::available_parallelism().map(|n| n.get()).unwrap_or(1);
     let mut profile = String::from("?");
+    let mut shard = (0u64, 1u64);
     let mut i = 3;
     while i < args.len() {
         match args[i].as_str() {
@@ -51,6 +52,11 @@ fn main() {
                 threads = args[i + 1].parse().unwrap_or(1);
                 i += 2;
             }
+            "--shard" => {
+                let mut it = args[i + 1].split('/');
+                shard = (it.next().and_then(|x| x.parse().ok()).unwrap_or(0), it.next().and_then(|x| x.parse().ok()).unwrap_or(1));
+                i += 2;
+            }
             "--profile" => {
                 profile = args[i + 1].clone();
                 i += 2;
@@ -67,10 +73,11 @@ fn main() {
     }
     let t0 = Instant::now();
     let mut st = Stats::new();
+    st.seq_shard = shard;
     let (prop, tiername) = match args[1].as_str() {
         "run" => {
             let prop = args[2].clone();
-            let ctx = Ctx { prop: prop.clone(), tier, seed, threads, profile: profile.clone() };
+            let ctx = Ctx { prop: prop.clone(), tier, seed, threads, profile: profile.clone(), shard };
             if !props::run(&ctx, &mut st) {
                 eprintln!("unknown property {}", prop);
                 std::process::exit(64);
